@@ -289,6 +289,16 @@ class CFG:
                 out.append((m.info[0], m.info[1]))
         return out
 
+    def nearest_edge(self, n):
+        """the branch-edge node that dominates n and is dominated by every other dominating edge"""
+        d = self.dominators().get(n.id, set())
+        edges = [self.nodes[i] for i in d if self.nodes[i].kind == "edge" and i != n.id]
+        best = None
+        for e in edges:
+            if all(self.dominates(o, e) for o in edges):
+                best = e
+        return best
+
     def dominates(self, a, b):
         d = self.dominators()
         return b.id in d and a.id in d[b.id]
